@@ -18,7 +18,7 @@ RULE = ('signature shape x per-parameter caller mode {omitted, value positional,
         'evaluation = one real call compared with the model (values and positions, or RuntimeError before the body '
         'naming exactly the unfilled parameters in signature order). non-trivial = at least one REQUIRED marker.')
 ASSUMPTIONS = ['at most one **kwargs name is varied (order among several unfilled **kwargs names is unspecified)']
-WITNESSES = ['positional_marker_filled_in_place', 'keyword_marker_filled', 'signature_required_filled',
+WITNESSES = ['builtin_positional_marker_filled', 'builtin_unfilled_named', 'positional_marker_filled_in_place', 'keyword_marker_filled', 'signature_required_filled',
              'missing_reported_in_order', 'body_not_run_on_missing', 'varargs_marker_rejected', 'kwargs_marker',
              'registration_rejected_denylist', 'registration_rejected_allowlist', 'class_shape', 'scoped_binding_fills']
 
@@ -336,6 +336,53 @@ def reg_cases(res):
   harness.hard_reset()
 
 
+# ----------------------------------------------------------------------------- C-implemented callables with named
+# parameters (builtins, method descriptors) registered through external_configurable
+def builtin_cases(res):
+  import math  # pylint: disable=import-outside-toplevel
+  cases = [
+      ('pow', pow, {'exp': 3}, lambda f: f(2, R), 8, None),
+      ('pow_kw', pow, {'exp': 3}, lambda f: f(2, exp=R), 8, None),
+      ('pow_unfilled', pow, {}, lambda f: f(2, R), None, ['exp']),
+      ('pow_both', pow, {'base': 2, 'exp': 5}, lambda f: f(R, R), 32, None),
+      ('sum_start', sum, {'start': 10}, lambda f: f([1, 2], R), 13, None),
+      ('isclose', math.isclose, {'b': 1.0}, lambda f: f(1.0, R), True, None),
+      ('isclose_unfilled', math.isclose, {}, lambda f: f(R, R), None, ['a', 'b']),
+  ]
+  for name, fn, bindings, call, want, missing in cases:
+    desc = ['builtin', name]
+    harness.hard_reset()
+    res.case(tuple(desc), True)
+    try:
+      cf = gin.external_configurable(fn, name='c10b_' + name, module='c10')
+      for p, v in bindings.items():
+        gin.bind_parameter('c10.c10b_%s.%s' % (name, p), v)
+    except Exception as e:  # pylint: disable=broad-except
+      res.violation('call_failed', '%r: registration / binding raised %r' % (desc, e), desc)
+      continue
+    try:
+      got, out = call(cf), 'ok'
+    except RuntimeError as e:
+      got, out = str(e), 'RuntimeError'
+    except Exception as e:  # pylint: disable=broad-except
+      got, out = e, type(e).__name__
+    res.outcome('builtin:' + out)
+    if missing is None:
+      if out != 'ok' or got != want:
+        res.violation('call_failed', '%r: C-implemented configurable with bindings %r: %s %r, expected %r' %
+                      (desc, bindings, out, got, want), desc)
+      else:
+        res.w('builtin_positional_marker_filled')
+    else:
+      names = [n for n in missing if ("'%s'" % n) in str(got)]
+      if out != 'RuntimeError' or names != missing:
+        res.violation('missing_required_names', '%r: expected a clean failure naming %r, got %s %r' %
+                      (desc, missing, out, got), desc)
+      else:
+        res.w('builtin_unfilled_named')
+  harness.hard_reset()
+
+
 def gen(tier):
   for sname, sh in SHAPES.items():
     names = sh['pos'] + sh['kwo'] + (['z'] if sh['vk'] else [])
@@ -367,6 +414,8 @@ def run_shard(i, tier):
                   'active': c[6]})
   if i == 0:
     reg_cases(res)
+  if i == 1:
+    builtin_cases(res)
   harness.hard_reset()
   return res
 
@@ -375,6 +424,9 @@ def replay(desc):
   res = core.Result()
   if desc[0] == 'reg':
     reg_cases(res)
+    return res
+  if desc[0] == 'builtin':
+    builtin_cases(res)
     return res
   sname, mitems, npos, extra, bn, bscope, active = desc
   run_case(sname, dict((k, v) for k, v in mitems), npos, extra, bn, bscope, active, res)
